@@ -32,6 +32,8 @@ def sim_kwargs(cfg):
         perform_auto_task_while_absence_time=bool(cfg.get("auto_flag", False)),
         max_time=cfg.get("max_time", 40),
     )
+    if cfg.get("unit_time") is not None:
+        kw["unit_time"] = cfg["unit_time"]
     if "init_state" in cfg:
         kw["initialize_state_info"] = bool(cfg["init_state"])
     if "init_log" in cfg:
